@@ -1,6 +1,8 @@
 package main
 
 import (
+	"crypto/sha256"
+	"encoding/hex"
 	"encoding/json"
 	"fmt"
 	"os"
@@ -59,6 +61,14 @@ func rtCorpus() []CorpusEntry {
 	return out
 }
 
+func corpusHash(c []CorpusEntry) string {
+	h := sha256.New()
+	for _, e := range c {
+		fmt.Fprintf(h, "%s\x00%s\x00%s\x00%v\x00", e.Name, e.Spec, e.Config, e.HasConfig)
+	}
+	return hex.EncodeToString(h.Sum(nil)[:6])
+}
+
 func cacheDir() string {
 	if d := os.Getenv("VERIF_CACHE"); d != "" {
 		return d
@@ -92,7 +102,7 @@ func prepareRT(scratch string) *rtBuild {
 	t0 := time.Now()
 	corpus := rtCorpus()
 	repoHash := treeHash(repoDir, repoSkip)
-	key := repoHash + "-" + treeHash(filepath.Join(verifDir, "rtsrc"), nil)[:10] + "-" + treeHash(filepath.Join(verifDir, "internal"), nil)[:10] + "-" + treeHash(filepath.Join(verifDir, "corpus"), nil)[:10]
+	key := repoHash + "-" + treeHash(filepath.Join(verifDir, "rtsrc"), nil)[:10] + "-" + treeHash(filepath.Join(verifDir, "internal"), nil)[:10] + "-" + corpusHash(corpus)
 	cdir := filepath.Join(cacheDir(), "rt-"+key)
 	if os.Getenv("VERIF_NO_CACHE") == "" {
 		var meta rtCacheMeta
